@@ -626,10 +626,11 @@ def c04a(chk):
         chk.fns_analysed.add(c.path)
         names = [callee_name(t["callee"]).split("::")[-1] for b, t in c.calls()]
         sub = [callee_name(t["callee"]).split("::")[-1] for c2 in prog.fn_list if c2.path.startswith(c.path + "::{closure") for b, t in c2.calls()]
-        if "get" in names and "and_then" in names:
+        if "get" in names and ("and_then" in names or "contains" in names or "contains" in sub):
+            # axes.get(i + 1..) then contains(axis) on that tail: through and_then(|tail| ..), or `let tail = axes.get(i + 1..)?;`
             rf = [rv for _, _, _, rv, _ in c.assigns() if rv["k"] == "aggregate" and rv.get("adt") == "core::ops::range::RangeFrom"]
             plus1 = [rv for _, _, _, rv, _ in c.assigns() if rv["k"] == "binop" and rv["op"].startswith("Add") and const_val(rv["r"]) == 1]
-            dup_ok = len(rf) == 1 and len(plus1) == 1 and "contains" in sub
+            dup_ok = len(rf) == 1 and len(plus1) == 1 and (names + sub).count("contains") == 1
         ge = [rv for _, _, _, rv, _ in c.assigns() if rv["k"] == "binop" and rv["op"] == "Ge"]
         if ge and any(callee_is(t["callee"], SP + "dimensions") for b, t in c.calls()):
             oob_ok = len(ge) == 1
